@@ -77,6 +77,30 @@ Worlds ==
     [] Family = "register" ->
          { [cfg |-> [C0 EXCEPT !.modules = m], seed |-> <<S0("u1", 1, TRUE)>>] :
              m \in { <<"auth", "register", "logout">>, <<"auth", "register", "confirm", "logout">> } }
+    [] Family = "twofa" ->       \* second-step logins: victim u1 (TOTP), attacker-owned u2 (SMS on phone 1)
+         { [cfg |-> [C0 EXCEPT !.modules = m, !.totpOneTime = ot, !.recoverLogin = TRUE, !.lockAfter = 1],
+            seed |-> << [S0("u1", 1, TRUE) EXCEPT !.totp = TRUE, !.rc = TRUE],
+                        [S0("u2", 2, TRUE) EXCEPT !.sms = 1, !.rc = TRUE] >>] :
+             m \in { <<"auth", "totp", "sms", "logout">>, <<"auth", "sms", "totp", "lock", "logout">>,
+                     <<"auth", "otp", "recover", "totp", "sms", "logout">> },
+             ot \in BOOLEAN }
+    [] Family = "smsswitch" ->   \* both accounts use SMS (different phones): pending-login switches
+         { [cfg |-> [C0 EXCEPT !.modules = <<"auth", "sms", "logout">>],
+            seed |-> << [S0("u1", 1, TRUE) EXCEPT !.sms = 1, !.rc = TRUE],
+                        [S0("u2", 2, TRUE) EXCEPT !.sms = 2] >>] }
+    [] Family = "tfasetup" ->    \* enrolment / removal / regeneration, with and without e-mail authorisation
+         { [cfg |-> [C0 EXCEPT !.modules = m, !.emailAuth = ea], seed |-> Seed2] :
+             m \in { <<"auth", "totp", "sms", "recovery", "logout">>,
+                     <<"auth", "remember", "totp", "sms", "recovery", "logout">> },
+             ea \in BOOLEAN }
+    [] Family = "otp" ->
+         { [cfg |-> [C0 EXCEPT !.modules = m, !.lockAfter = 1],
+            seed |-> << [S0("u1", 1, TRUE) EXCEPT !.otps = 2], [S0("u2", 2, TRUE) EXCEPT !.otps = 4] >>] :
+             m \in { <<"auth", "otp", "logout">>, <<"auth", "otp", "lock", "logout">> } }
+    [] Family = "oauth" ->
+         { [cfg |-> [C0 EXCEPT !.modules = m, !.errWrites = ew], seed |-> <<S0("u1", 1, TRUE)>>] :
+             m \in { <<"auth", "oauth2", "logout">>, <<"auth", "oauth2", "lock", "remember", "logout">> },
+             ew \in BOOLEAN }
 
 -----------------------------------------------------------------------------
 (* events *)
@@ -137,6 +161,53 @@ Events(S, c) ==
          \cup (IF Has(c, "confirm")
                THEN { [Ev("ConfirmGet", b) EXCEPT !.tok = t] : b \in {"b1"}, t \in {-1} \cup 1..S.iss["ct"] }
                ELSE {})
+
+    [] Family = "twofa" ->
+         { [Ev("LoginPost", b) EXCEPT !.pid = p, !.pw = w] : b \in Browsers, p \in {"u1", "u2"}, w \in {1, 2} }
+         \cup { [Ev("TotpValidate", b) EXCEPT !.tok = 1, !.code = k] : b \in Browsers, k \in {1, 3, -1} }
+         \cup { [Ev("TotpValidate", b) EXCEPT !.rc = i, !.g = g] : b \in Browsers, i \in {1}, g \in {1, 2} }
+         \cup { [Ev("SmsValidate", b) EXCEPT !.code = k] : b \in Browsers, k \in {0, -1} \cup 1..S.iss["sc"] }
+         \cup { [Ev("SmsValidate", b) EXCEPT !.rc = 1, !.g = g] : b \in Browsers, g \in {1, 2} }
+         \cup Ticks({1}) \cup { Ev("Probe", b) : b \in Browsers }
+         \cup (IF Has(c, "lock") THEN Admin({"AdminLock"}, {"u1", "u2"}) ELSE {})
+         \cup (IF Has(c, "otp") THEN { [Ev("OtpLoginPost", "b1") EXCEPT !.pid = "u1", !.tok = 1] } ELSE {})
+         \cup (IF Has(c, "recover")
+               THEN { [Ev("RecoverStart", "b1") EXCEPT !.pid = "u1"] }
+                    \cup { [Ev("RecoverEnd", "b1") EXCEPT !.tok = t, !.pw = 3] : t \in 1..S.iss["rt"] }
+               ELSE {})
+    [] Family = "smsswitch" ->
+         { [Ev("LoginPost", "b1") EXCEPT !.pid = p, !.pw = w] : p \in {"u1", "u2"}, w \in {1, 2} }
+         \cup { [Ev("SmsValidate", "b1") EXCEPT !.code = k] : k \in {0, -1} \cup 1..S.iss["sc"] }
+         \cup { [Ev("SmsValidate", "b1") EXCEPT !.rc = 1, !.g = 1] }
+         \cup Ticks({1}) \cup { Ev("Probe", "b1"), [Ev("Logout", "b1") EXCEPT !.method = c.logoutMethod] }
+    [] Family = "tfasetup" ->
+         { [Ev("LoginPost", b) EXCEPT !.pid = p, !.pw = w, !.rm = Has(c, "remember")] :
+              b \in {"b1"}, p \in {"u1", "u2"}, w \in {1, 2} }
+         \cup { Ev(a, "b1") : a \in {"TotpSetup", "SmsSetupGet", "RecoveryRegen"} }
+         \cup { [Ev("TotpConfirm", "b1") EXCEPT !.tok = t, !.code = k] : t \in 1..S.iss["ts"], k \in {1, -1} }
+         \cup { [Ev("TotpRemove", "b1") EXCEPT !.tok = t, !.code = k] : t \in 1..S.iss["ts"], k \in {3, -1} }
+         \cup { [Ev("TotpRemove", "b1") EXCEPT !.rc = 1, !.g = g] : g \in 1..S.iss["rc"] }
+         \cup { [Ev("SmsSetup", "b1") EXCEPT !.phone = ph] : ph \in {1, 2} }
+         \cup { [Ev(a, "b1") EXCEPT !.code = k] : a \in {"SmsConfirm", "SmsRemove"}, k \in {0, -1} \cup 1..S.iss["sc"] }
+         \cup (IF c.emailAuth
+               THEN { [Ev("EmailVerifyStart", "b1") EXCEPT !.kind = k] : k \in {"totp", "sms"} }
+                    \cup { [Ev("EmailVerifyEnd", "b1") EXCEPT !.kind = "totp", !.tok = t] : t \in {-1} \cup 1..S.iss["tt"] }
+               ELSE {})
+         \cup Ticks({1})
+         \cup (IF Has(c, "remember") THEN { Ev("DropSession", "b1") } ELSE {})
+    [] Family = "otp" ->
+         { [Ev("OtpLoginPost", b) EXCEPT !.pid = p, !.tok = t] :
+              b \in Browsers, p \in {"u1", "u2"}, t \in {-1} \cup 1..S.iss["otp"] }
+         \cup { Ev(a, "b1") : a \in {"OtpAdd", "OtpClear", "Probe"} }
+         \cup { [Ev("LoginPost", "b1") EXCEPT !.pid = "u2", !.pw = 2] }
+         \cup Ticks({3})
+    [] Family = "oauth" ->
+         { [Ev("OAuthStart", b) EXCEPT !.prov = p, !.rm = r] : b \in Browsers, p \in {"pa", "pb"}, r \in BOOLEAN }
+         \cup { [Ev("OAuthCallback", b) EXCEPT !.prov = p, !.tok = t, !.outcome = o] :
+                  b \in Browsers, p \in {"pa", "pb"}, t \in {-1} \cup 1..S.iss["os"],
+                  o \in {"x", "y", "error", "exchangeFail"} }
+         \cup ProbeLogout(c)
+         \cup (IF Has(c, "lock") THEN Admin({"AdminLock"}, {"o_pa_x"}) ELSE {})
 
 -----------------------------------------------------------------------------
 
